@@ -35,21 +35,28 @@ def handlePublish (cmd : String) (rest : List String) : Option String :=
     match rest with
     | [h] => match fromHex h with | some s => some (toHex (sanitize s)) | none => some "bad-op"
     | _ => some "bad-op"
-  | "c19keys" =>   -- c19keys <places> <names>
+  | "c19keys" =>   -- c19keys <places> <source pointers> <names>
     match c19TakeStrs rest with
     | some (places, r) =>
       match c19TakeStrs r with
-      | some (names, []) => some (c19JoinHex (individualKeys names places))
-      | _ => some "bad-op"
+      | some (ptrs, r) =>
+        match c19TakeStrs r with
+        | some (names, []) => some (c19JoinHex (individualKeys names (places ++ reservedKeys ptrs)))
+        | _ => some "bad-op"
+      | none => some "bad-op"
     | none => some "bad-op"
-  | "c19pind" =>   -- c19pind <hidden> <i> <places> <names>
+  | "c19pind" =>   -- c19pind <i> <hidden bits|-> <places> <source pointers> <names>
     match rest with
-    | h :: i :: r =>
+    | i :: h :: r =>
       match i.toNat?, c19TakeStrs r with
       | some i, some (places, r) =>
         match c19TakeStrs r with
-        | some (names, []) => some (toHex (pageIndividual names places (h == "1") i))
-        | _ => some "bad-op"
+        | some (ptrs, r) =>
+          match c19TakeStrs r with
+          | some (names, []) =>
+            some (toHex (pageIndividualV names (if h == "-" then [] else c19Bits h) (places ++ reservedKeys ptrs) i))
+          | _ => some "bad-op"
+        | none => some "bad-op"
       | _, _ => some "bad-op"
     | _ => some "bad-op"
   | "c19pinds" =>
@@ -68,20 +75,30 @@ def handlePublish (cmd : String) (rest : List String) : Option String :=
     match rest with
     | [h] => match fromHex h with | some s => some (toHex (surnameLinkPage s)) | none => some "bad-op"
     | _ => some "bad-op"
-  | "c19pents" =>  -- c19pents <pretty names in document order> : entries sorted by key
-    match c19TakeStrs rest with
-    | some (ps, []) =>
-      let es := (placeEntries ps).mergeSort (fun a b => !c19StrLt b.1 a.1)
-      some (c19JoinHex (es.flatMap fun kv => [kv.1, kv.2]))
+  | "c19pretty" =>  -- c19pretty <PLAC value> : the name it is listed under
+    match rest with
+    | [h] => match fromHex h with | some v => some (toHex (prettyOf v)) | none => some "bad-op"
     | _ => some "bad-op"
-  | "c19pplace" =>  -- c19pplace <pretty> <pretty names in document order>
+  | "c19pents" =>  -- c19pents <source pointers> <PLAC values in document order> : entries sorted by key
+    match c19TakeStrs rest with
+    | some (ptrs, r) =>
+      match c19TakeStrs r with
+      | some (vs, []) =>
+        let es := (placeEntriesR (reservedKeys ptrs) (vs.map prettyOf)).mergeSort (fun a b => !c19StrLt b.1 a.1)
+        some (c19JoinHex (es.flatMap fun kv => [kv.1, kv.2]))
+      | _ => some "bad-op"
+    | none => some "bad-op"
+  | "c19pplace" =>  -- c19pplace <pretty> <source pointers> <PLAC values in document order>
     match rest with
     | h :: r =>
       match fromHex h, c19TakeStrs r with
-      | some p, some (ps, []) => some (toHex (pagePlace p (placeEntries ps)))
+      | some p, some (ptrs, r) =>
+        match c19TakeStrs r with
+        | some (vs, []) => some (toHex (pagePlace p (placeEntriesR (reservedKeys ptrs) (vs.map prettyOf))))
+        | _ => some "bad-op"
       | _, _ => some "bad-op"
     | _ => some "bad-op"
-  | "c19files" =>  -- c19files <6 option bits> <letters hex> <hidden bits|-> <names> <places> <sourcePtrs>
+  | "c19files" =>  -- c19files <6 option bits> <letters hex> <hidden bits|-> <names> <PLAC values> <sourcePtrs>
     match rest with
     | o :: l :: h :: r =>
       match c19Bits o, fromHex l, c19TakeStrs r with
